@@ -1,5 +1,5 @@
 (* C03 — dgrep selects exactly the lines grep semantics prescribe.  Statements only. *)
-From DT Require Import Lib.Bytes Model.C03_Grep Proofs.C03_Grep.
+From DT Require Import Lib.Bytes Model.C03_Grep Proofs.C03_Grep Proofs.C03_Full.
 
 (* Full statement: for every file (as selection bits), before, after and max, the state machine
    of filterWithLContext emits exactly the indices the declarative grep semantics [emitted]
@@ -7,10 +7,22 @@ From DT Require Import Lib.Bytes Model.C03_Grep Proofs.C03_Grep.
 Definition C03_full : Prop :=
   forall (b a m : nat) (ms : list bool), grep_run b a m ms = grep_spec b a m ms.
 
-(* Proved so far: the full statement on the finite domain |file| <= 8, before, after <= 3,
-   max <= 4 (exhaustive kernel evaluation of 40 880 cases lifted with forallb_forall).  What is
-   missing for C03_full is the induction over files of arbitrary length and larger options;
-   beyond the bound the statement is exercised by the correspondence check only. *)
+(* The full statement holds: for files of every length and all option values (invariant over the
+   prefix read so far: the machine's counters, its after-countdown and the contents of the before
+   buffer are functions of the prefix; what is still buffered at a position is emitted iff the
+   declarative semantics selects it). *)
+Theorem C03_full_holds : C03_full.
+Proof. exact grep_equiv. Qed.
+Print Assumptions C03_full_holds.
+
+(* every emitted line carries its own position in the file as running number *)
+Theorem C03_numbers : forall (b a m : nat) (ms : list bool),
+  Forall (fun r => fst r = S (snd r)) (grep_recs b a m ms).
+Proof. exact grep_numbers. Qed.
+Print Assumptions C03_numbers.
+
+(* kept as an independent cross-check of the statement: exhaustive kernel evaluation of the 40 880
+   cases with |file| <= 8, before, after <= 3, max <= 4 *)
 Theorem C03_grep_partial : forall (b a m : nat) (ms : list bool),
   length ms <= 8 -> b <= 3 -> a <= 3 -> m <= 4 -> grep_run b a m ms = grep_spec b a m ms.
 Proof. exact (fun b a m ms => grep_equiv_bounded ms b a m). Qed.
